@@ -268,7 +268,8 @@ class C06(core.Check):
                 if k == 'marker':
                     out.append(f".byte {it['v']}")
                 elif k == 'ref':
-                    out.append(f".2byte {it['name']}")
+                    form = rng.choice(['{}', '{}', '({})', '{} + 0', '{}+1-1', 'BYTE1({})<<8 | BYTE0({})'])
+                    out.append('.2byte ' + form.replace('{}', it['name']))
                 elif k == 'label':
                     out.append(it['name'] + ':')
                 elif k == 'const':
